@@ -35,7 +35,7 @@ type dim struct {
 
 var dims = []dim{
 	{"process", []string{"nil", "root-env", "uid1000-gid2000-env", "uid1000-gid0", "uid0-gid2000", "gids-5-7"}},
-	{"linux", []string{"nil", "empty", "devices+rules", "devices+rules+rdt", "rules-identical-to-edits"}},
+	{"linux", []string{"nil", "empty", "devices+rules", "devices+rules+rdt", "rules-identical-to-edits", "rules-with-wildcards"}},
 	{"mounts", []string{"nil", "unsorted-existing", "many-equal-depth", "many-mixed-depth"}},
 	{"hooks", []string{"nil", "existing"}},
 	{"env", []string{"none", "new", "override", "repeated", "override+repeated+new"}},
@@ -171,6 +171,19 @@ func buildOCI(c Case) *oci.Spec {
 			{Allow: true, Type: "b", Major: i64(7), Minor: i64(0), Access: "rwm"}, {Allow: true, Type: "c", Major: i64(10), Minor: i64(20), Access: "rwm"},
 			{Allow: true, Type: "c", Major: i64(1), Minor: i64(3), Access: "r"}, {Allow: true, Type: "c", Major: i64(10), Minor: i64(200), Access: "rwm"},
 			{Allow: false, Access: "rwm"}}}}
+	case "rules-with-wildcards":
+		// rules as runtimes write them: nil (wildcard) major and / or minor for the types, majors and access
+		// strings the node templates use
+		var rules []oci.LinuxDeviceCgroup
+		for _, ty := range []string{"c", "b", "a"} {
+			for _, acc := range []string{"rwm", "rw", "r"} {
+				for _, maj := range []*int64{nil, i64(1), i64(10), i64(7), i64(240)} {
+					rules = append(rules, oci.LinuxDeviceCgroup{Allow: true, Type: ty, Major: maj, Access: acc})
+				}
+				rules = append(rules, oci.LinuxDeviceCgroup{Allow: true, Type: ty, Minor: i64(3), Access: acc})
+			}
+		}
+		s.Linux = &oci.Linux{Resources: &oci.LinuxResources{Devices: append(rules, oci.LinuxDeviceCgroup{Allow: false, Access: "rwm"})}}
 	case "devices+rules", "devices+rules+rdt":
 		s.Linux = &oci.Linux{
 			Devices: []oci.LinuxDevice{{Path: "/dev/existing", Type: "c", Major: 5, Minor: 6, UID: u32(7)}, {Path: "/dev/keep", Type: "b", Major: 8, Minor: 1, FileMode: fmode(0o600)}},
